@@ -3,6 +3,7 @@ import os
 import re
 
 import vlib
+from decgen_tie import run_decgen
 
 
 def run(c):
@@ -26,6 +27,7 @@ def run(c):
     if not c.coq_make():
         return
     c.coq_properties()
+    run_decgen(c, "C15")
     # the lock discipline the atomic-step model assumes
     rc, out = c.go_tool("lockaudit", [os.path.join(vlib.REPO, "client.go")])
     methods = len(re.findall(r"^METHOD ", out, re.M))
